@@ -88,6 +88,22 @@ class Mut(ast.NodeTransformer):
 
     def visit_If(self, node):
         self.generic_visit(node)
+        if self.kind == 'p-swap-else' and node.orelse and self._hit():
+            # behaviour-preserving: negate the test, swap the branches
+            self.desc = 'PRESERVING swap branches: if %s' % \
+                ast.unparse(node.test)[:50]
+            node.test = ast.UnaryOp(op=ast.Not(), operand=node.test)
+            node.body, node.orelse = node.orelse, node.body
+            return node
+        if self.kind == 'p-hoist-test' and self._hit():
+            # behaviour-preserving: name the value of the test first
+            self.desc = 'PRESERVING hoist test: if %s' % \
+                ast.unparse(node.test)[:50]
+            tmp = 'test_value_%d' % self.count
+            asg = ast.Assign(targets=[ast.Name(id=tmp, ctx=ast.Store())],
+                             value=node.test)
+            node.test = ast.Name(id=tmp, ctx=ast.Load())
+            return [asg, node]
         if self.kind == 'narrow' and self._hit():
             # the code guarded by this `if` is reached in fewer situations
             exits = node.body and isinstance(
@@ -136,6 +152,15 @@ class Mut(ast.NodeTransformer):
 
     def visit_Compare(self, node):
         self.generic_visit(node)
+        if self.kind == 'p-mirror-eq' and len(node.ops) == 1 and \
+                isinstance(node.ops[0], (ast.Eq, ast.NotEq)) and \
+                not any(isinstance(x, (ast.Call, ast.Await))
+                        for x in ast.walk(node)):
+            if self._hit():
+                self.desc = 'PRESERVING mirror: %s' % ast.unparse(node)[:50]
+                node.left, node.comparators = node.comparators[0], \
+                    [node.left]
+            return node
         if self.kind == 'swap-pred' and len(node.ops) == 1 and \
                 isinstance(node.ops[0], (ast.Eq, ast.NotEq)) and \
                 isinstance(node.comparators[0], ast.Attribute) and \
@@ -210,7 +235,35 @@ def mutants_of(prog, q):
         tree = ast.parse(ded)
     except SyntaxError:
         return
+    if 'p-rename-local' in KINDS:
+        fn = tree.body[0]
+        params = {a.arg for a in ast.walk(fn) if isinstance(a, ast.arg)}
+        declared = set()
+        for x in ast.walk(fn):
+            if isinstance(x, (ast.Global, ast.Nonlocal)):
+                declared |= set(x.names)
+        allnames = {x.id for x in ast.walk(fn) if isinstance(x, ast.Name)}
+        locs = []
+        for x in ast.walk(fn):
+            if isinstance(x, ast.Name) and isinstance(x.ctx, ast.Store) \
+                    and x.id not in params and x.id not in declared and \
+                    x.id not in locs and not x.id.startswith('_'):
+                locs.append(x.id)
+        for i, name in enumerate(locs):
+            new = name + '_renamed'
+            if new in allnames:
+                continue
+            t = copy.deepcopy(tree)
+            for x in ast.walk(t):
+                if isinstance(x, ast.Name) and x.id == name:
+                    x.id = new
+            new_seg = textwrap.indent(ast.unparse(t), ' ' * indent)
+            new_src = '\n'.join(lines[:start] + [new_seg] + lines[end:])
+            yield (path, new_src, '%s [p-rename-local #%d] PRESERVING rename '
+                   '%s -> %s' % (q, i, name, new))
     for kind in KINDS:
+        if kind == 'p-rename-local':
+            continue
         i = 0
         while True:
             t = copy.deepcopy(tree)
